@@ -18,6 +18,18 @@ class AnalysisError(Exception):
     """The construct a rule needs cannot be found or interpreted."""
 
 
+_INV = None
+
+
+def _inventory():
+    global _INV
+    if _INV is None:
+        import json
+        p = Path(__file__).resolve().parent / "inventory.json"
+        _INV = json.loads(p.read_text())["files"] if p.is_file() else {}
+    return _INV
+
+
 class Module:
     def __init__(self, repo, relpath, source):
         self.repo = repo
@@ -28,6 +40,15 @@ class Module:
         for node in ast.walk(self.tree):
             for child in ast.iter_child_nodes(node):
                 child._parent = node
+        self.normalised, self.flagged = [], set()
+        inv = _inventory().get(relpath)
+        if inv is not None and os.environ.get("SNT_NO_NORMALISE") != "1":
+            from .normalise import normalise_module
+            n = normalise_module(self.tree, inv)
+            self.normalised, self.flagged = n.log, n.flagged
+            for node in ast.walk(self.tree):
+                for child in ast.iter_child_nodes(node):
+                    child._parent = node
         self.classes = {}
         self.functions = {}
         self.assigns = {}               # top-level NAME -> value node (last one)
